@@ -1177,6 +1177,9 @@ func (fa *Facts) assume(cond ast.Expr, truth bool, st *State) {
 			}
 		}
 	case *ast.CallExpr:
+		if truth {
+			fa.assumePredicate(e, st)
+		}
 		if fo := StaticCallee(fa.Info, e); fo != nil && fo.Pkg() != nil && truth {
 			switch fo.Pkg().Path() + "." + fo.Name() {
 			case "strings.HasPrefix", "strings.HasSuffix", "bytes.HasPrefix", "bytes.HasSuffix":
@@ -1189,6 +1192,97 @@ func (fa *Facts) assume(cond ast.Expr, truth bool, st *State) {
 			}
 		}
 	}
+}
+
+// assumePredicate handles `if x.pred(…)` where pred is a method of the
+// repository whose body is `return A && B && …`: the conjuncts that say the
+// receiver's slice field is non-empty (len(r.f) != 0, > 0, >= 1) hold for the
+// caller's receiver expression on the true edge.  (A predicate such as
+// `top(tok)` that tests the stack before looking at its top.)
+func (fa *Facts) assumePredicate(call *ast.CallExpr, st *State) {
+	p := CurrentProgram
+	if p == nil {
+		return
+	}
+	fo := StaticCallee(fa.Info, call)
+	if fo == nil {
+		return
+	}
+	h := p.FuncOf(fo)
+	if h == nil || h.Decl == nil || h.Body == nil || len(h.Body.List) != 1 || h.Decl.Recv == nil || len(h.Decl.Recv.List) != 1 || len(h.Decl.Recv.List[0].Names) != 1 {
+		return
+	}
+	ret, ok := h.Body.List[0].(*ast.ReturnStmt)
+	if !ok || len(ret.Results) != 1 {
+		return
+	}
+	sel, ok := call.Fun.(*ast.SelectorExpr)
+	if !ok {
+		return
+	}
+	recvS, recvTi, ok := fa.Canon(sel.X)
+	if !ok {
+		return
+	}
+	hi := h.Info()
+	recvObj := hi.Defs[h.Decl.Recv.List[0].Names[0]]
+	var conj func(e ast.Expr)
+	conj = func(e ast.Expr) {
+		e = ast.Unparen(e)
+		be, ok := e.(*ast.BinaryExpr)
+		if !ok {
+			return
+		}
+		if be.Op == token.LAND {
+			conj(be.X)
+			conj(be.Y)
+			return
+		}
+		// len(r.f) != 0 | len(r.f) > 0 | len(r.f) >= 1 | 0 < len(r.f) | 0 != len(r.f)
+		lenOf := func(x ast.Expr) *types.Var {
+			c, ok := ast.Unparen(x).(*ast.CallExpr)
+			if !ok || len(c.Args) != 1 {
+				return nil
+			}
+			if id, ok := c.Fun.(*ast.Ident); !ok || id.Name != "len" {
+				return nil
+			}
+			se, ok := ast.Unparen(c.Args[0]).(*ast.SelectorExpr)
+			if !ok {
+				return nil
+			}
+			id, ok := ast.Unparen(se.X).(*ast.Ident)
+			if !ok || hi.Uses[id] != recvObj || recvObj == nil {
+				return nil
+			}
+			return FieldOf(hi, se)
+		}
+		constOf := func(x ast.Expr) (int64, bool) {
+			if tv, ok := hi.Types[x]; ok && tv.Value != nil && tv.Value.Kind() == constant.Int {
+				v, ok := constant.Int64Val(tv.Value)
+				return v, ok
+			}
+			return 0, false
+		}
+		var fld *types.Var
+		nonEmpty := false
+		if f := lenOf(be.X); f != nil {
+			if k, ok := constOf(be.Y); ok {
+				fld = f
+				nonEmpty = (be.Op == token.NEQ && k == 0) || (be.Op == token.GTR && k == 0) || (be.Op == token.GEQ && k == 1)
+			}
+		} else if f := lenOf(be.Y); f != nil {
+			if k, ok := constOf(be.X); ok {
+				fld = f
+				nonEmpty = (be.Op == token.NEQ && k == 0) || (be.Op == token.LSS && k == 0) || (be.Op == token.LEQ && k == 1)
+			}
+		}
+		if fld != nil && nonEmpty {
+			ti := &termInfo{deps: append(append([]*types.Var{}, recvTi.deps...), fld), hasIndex: recvTi.hasIndex}
+			st.addLinLE(Lin{Off: 1}, Lin{Term: "len(" + recvS + "." + fld.Name() + ")", ti: ti}, 0)
+		}
+	}
+	conj(ret.Results[0])
 }
 
 func joinNonNil(a, b, fallback *State) *State {
